@@ -753,6 +753,17 @@ def r03i(ctx):
             if any(pol and t == f"{a0}._filter_passthrough_reorders_rows" for t, pol in facts) and any("Elemwise" in t for t, pol in facts):
                 consulted = True
     (ctx.ok if consulted else ctx.bad)("_expr.is_filter_pushdown_available:order-dependent-predicate", mod.loc(fn), "refuses predicates that are not row-wise / reductions below a reordering operator" if consulted else "the legality test does not refuse order-dependent predicates below operators that reorder rows")
+    # ... and refuses a row-aligned term that is not computed from the operator at all: it lines up with the rows the operator
+    # RETURNS. Shape: a refusing return under the reorder flag and under `not any(<x>._name == expr._name for <x> in <term>.walk())`.
+    foreign = False
+    for pt in flow.returns(fn):
+        if isinstance(pt.stmt.value, ast.Constant) and pt.stmt.value.value is False:
+            fs = list(flow.facts(pt))
+            if any(pol and unparse(t) == f"{a0}._filter_passthrough_reorders_rows" for t, pol in fs) and any(
+                (not pol) and pmatch(f"any((V_x._name == {a0}._name for V_x in V_e.walk()))", t) is not None for t, pol in fs
+            ):
+                foreign = True
+    (ctx.ok if foreign else ctx.bad)("_expr.is_filter_pushdown_available:foreign-row-aligned-term", mod.loc(fn), "refuses predicates with a row-aligned term that does not derive from the reordering operator" if foreign else "below an operator that reorders rows the legality test accepts a predicate (or a term of it) that is not computed from that operator: the mask lines up with the operator's OUTPUT rows, the rewrite pairs it with the input rows - after the OR-factoring rewrite + column pruning x[((x.b > 2) & (x.a > 1)) | ((x.b > 2) & (x.a < 0))] above set_index selected other rows / failed")
 
 
 # ---------------------------------------------------------------------------------------------
